@@ -79,6 +79,41 @@ theorem tie_rwUpdateTail (rw : RW) (now : Nat) (h : rw.lastTime ≤ now) (hs : r
   rw [e3]
   norm_cast
 
+/-- `RollingWindow.span` with the clock *behind* `lastTime`: Go's truncating division gives 0 for less than one interval
+(span 0) and a negative quotient otherwise, which fails `0 <= offset`: span = size (`RW.spanB`) -/
+theorem tie_rwSpanBackwards (rw : RW) (now : Nat) (h : now < rw.lastTime) (hi : 0 < rw.interval) :
+    rwSpan rw.lastTime now rw.interval rw.size = (rw.spanB now : Int) := by
+  unfold rwSpan clockSince RW.spanB
+  simp only [h, if_true]
+  have e : ((now : Int) - (rw.lastTime : Int)) = -((rw.lastTime - now : Nat) : Int) := by omega
+  rw [e, Int.neg_tdiv]
+  have e2 : Int.tdiv ((rw.lastTime - now : Nat) : Int) (rw.interval : Int) = (((rw.lastTime - now) / rw.interval : Nat) : Int) := by
+    rw [Int.tdiv_eq_ediv_of_nonneg (by omega)]; norm_cast
+  rw [e2]
+  by_cases hlt : rw.lastTime - now < rw.interval
+  · have : (rw.lastTime - now) / rw.interval = 0 := Nat.div_eq_of_lt hlt
+    rw [this]
+    by_cases hz : (0 : Int) < (rw.size : Int)
+    · simp [hlt]
+    · have : rw.size = 0 := by omega
+      simp [hlt, this]
+  · have hq : 1 ≤ (rw.lastTime - now) / rw.interval := (Nat.one_le_div_iff hi).2 (by omega)
+    generalize (rw.lastTime - now) / rw.interval = q at hq ⊢
+    simp [hlt]
+    intro h0; omega
+
+/-- the tail of `updateOffset` with the clock behind `lastTime`: Go's `%` keeps the sign of the dividend, so `lastTime`
+is re-aligned on its old grid at or after `now` (`RW.updateOffsetB`) -/
+theorem tie_rwUpdateTailBackwards (rw : RW) (now : Nat) (h : now < rw.lastTime) (hs : rw.spanB now ≠ 0) (hi : 0 < rw.interval) :
+    rwUpdateTail rw.offset (rw.spanB now) rw.size now rw.lastTime rw.interval
+      = [("offset", ((rw.updateOffsetB now).offset : Int)), ("lastTime", ((rw.updateOffsetB now).lastTime : Int))] := by
+  simp only [rwUpdateTail, clockNow, RW.updateOffsetB, hs, if_false, h, if_true]
+  have e : ((now : Int) - (rw.lastTime : Int)) = -((rw.lastTime - now : Nat) : Int) := by omega
+  rw [e, Int.neg_tmod, Int.tmod_eq_emod_of_nonneg (by omega), Int.tmod_eq_emod_of_nonneg (by omega)]
+  norm_cast
+  simp only [Int.sub_neg]
+  norm_cast
+
 /-! ### statements of the transcribed functions -/
 
 /-- `NewQueue(size)`: `size` zeroed slots, growth step `size` (Queue.new) -/
